@@ -64,11 +64,15 @@ MUTATORS = {
         ("drop cap", r"quimb/tensor/tn1d/(compress|core)\.py$", r"^(\s+)max_bond=max_bond,\s*$", None),
         ("drop cutoff", r"quimb/tensor/tn1d/(compress|core)\.py$", r"^(\s+)cutoff=cutoff,\s*$", None),
         ("idiom -> alias (1d)", r"quimb/tensor/tn1d/compress\.py$", r"^(\s+)(\w+) = (\w+) if inplace else \3\.copy\(\)\s*$", r"\1\2 = \3"),
+        ("fit memory never updated", r"quimb/tensor/tn1d/compress\.py$", r"^(\s+)old_direction = next_direction\s*$", r"\1pass"),
+        ("fit memory updated before sweep", r"quimb/tensor/tn1d/compress\.py$", r"^(\s+)next_direction = next\(sweeps\)\s*$", r"\1next_direction = next(sweeps)\n\1old_direction = next_direction"),
     ],
     "C10": [
         ("drop bra update", r"quimb/tensor/tn1d/dmrg\.py$", r"^(\s+)self\._b\[[^\]]+\]\.modify\(.*\)\s*$", None),
         ("bra without conj", r"quimb/tensor/tn1d/dmrg\.py$", r"^(\s+self\._b\[[^\]]+\]\.modify\(data=\w+)\.conj\(\)(.*)$", r"\1\2"),
         ("drop bra=", r"quimb/tensor/tn1d/(dmrg|core)\.py$", r"^(\s+)bra=(bra|self\._b),\s*$", None),
+        ("sweep memory from sequence", r"quimb/tensor/tn1d/dmrg\.py$", r"^(\s+)previous_direction = direction\s*$", r"\1previous_direction = sweep_sequence[0]"),
+        ("sweep memory seeded from outside", r"quimb/tensor/tn1d/dmrg\.py$", r"^(\s+)previous_direction = \"0\"\s*$", r"\1previous_direction = sweep_sequence[-1]"),
     ],
     "C11": [
         ("trotter half", r"quimb/tensor/tnag/tebd\.py$", r"^(\s+)\*\(\(k, 0\.5\) for k in range\(nlayers - 1\)\),\s*$", r"\1*((k, 0.25) for k in range(nlayers - 1)),"),
